@@ -722,6 +722,7 @@ func (rw *rewriter) insertYields() {
 			case *ast.DeclStmt, *ast.EmptyStmt, *ast.CaseClause, *ast.CommClause:
 			default:
 				out = append(out, yield())
+				out = append(out, rw.mapAccesses(s)...)
 			}
 			out = append(out, s)
 		}
@@ -738,6 +739,106 @@ func (rw *rewriter) insertYields() {
 		}
 		return true
 	})
+}
+
+// mapAccesses returns, for one statement of a statement-level file, calls that
+// announce its accesses to Go maps (vrt.MapWrite / vrt.MapRead): the runtime
+// reports overlapping accesses the way the Go runtime does ("concurrent map
+// writes"). Only side-effect-free map expressions are announced; nested
+// blocks and function literals are handled when their own statements are
+// visited.
+func (rw *rewriter) mapAccesses(s ast.Stmt) []ast.Stmt {
+	type acc struct {
+		expr  ast.Expr
+		write bool
+	}
+	seen := map[string]*acc{}
+	var order []string
+	isMap := func(e ast.Expr) bool {
+		t := rw.info.TypeOf(e)
+		if t == nil {
+			return false
+		}
+		_, ok := t.Underlying().(*types.Map)
+		return ok
+	}
+	note := func(e ast.Expr, write bool) {
+		if !simpleExpr(e) || !isMap(e) {
+			return
+		}
+		var b bytes.Buffer
+		printer.Fprint(&b, token.NewFileSet(), e)
+		k := b.String()
+		if a, ok := seen[k]; ok {
+			a.write = a.write || write
+			return
+		}
+		seen[k] = &acc{e, write}
+		order = append(order, k)
+	}
+	var visit func(n ast.Node, lhs bool)
+	visit = func(n ast.Node, lhs bool) {
+		ast.Inspect(n, func(x ast.Node) bool {
+			switch y := x.(type) {
+			case *ast.FuncLit, *ast.BlockStmt:
+				return false
+			case *ast.IndexExpr:
+				note(y.X, lhs)
+				visit(y.Index, false)
+				if _, ok := y.X.(*ast.IndexExpr); ok {
+					visit(y.X, false)
+				}
+				return false
+			case *ast.CallExpr:
+				if id, ok := y.Fun.(*ast.Ident); ok && id.Name == "delete" && len(y.Args) == 2 {
+					note(y.Args[0], true)
+				}
+				if sel, ok := y.Fun.(*ast.SelectorExpr); ok && sel.Sel.Name == "SortedKeys" && len(y.Args) == 1 {
+					note(y.Args[0], false)
+				}
+			}
+			return true
+		})
+	}
+	switch st := s.(type) {
+	case *ast.AssignStmt:
+		for _, l := range st.Lhs {
+			visit(l, true)
+		}
+		for _, r := range st.Rhs {
+			visit(r, false)
+		}
+	case *ast.IncDecStmt:
+		visit(st.X, true)
+	case *ast.ExprStmt:
+		visit(st.X, false)
+	case *ast.ReturnStmt:
+		for _, r := range st.Results {
+			visit(r, false)
+		}
+	case *ast.IfStmt:
+		if st.Init != nil {
+			return rw.mapAccesses(st.Init)
+		}
+		visit(st.Cond, false)
+	case *ast.RangeStmt:
+		visit(st.X, false)
+		note(st.X, false)
+	case *ast.SwitchStmt:
+		if st.Tag != nil {
+			visit(st.Tag, false)
+		}
+	}
+	var out []ast.Stmt
+	for _, k := range order {
+		a := seen[k]
+		name := "MapRead"
+		if a.write {
+			name = "MapWrite"
+		}
+		out = append(out, &ast.ExprStmt{X: &ast.CallExpr{Fun: rw.vrt(name), Args: []ast.Expr{a.expr}}})
+	}
+	return out
 }
 
 var _ = constant.MakeBool
